@@ -324,11 +324,14 @@ class LiftThroughNamedPlacements(Case):
     func = "location.location.Location.lift_over_to_first_ancestor_of_type"
     module = "gene.interval"
     name = "lift through three levels placed by locations that name their coordinate system[all PLUS, symbolic offsets]"
-    call = ("(lambda c, t: (c.start, c.end, t.start, t.end, t.parent.id))"
-            "(child.lift_over_to_first_ancestor_of_type('contig'), child.lift_over_to_first_ancestor_of_type('chromosome'))")
+    call = ("(lambda c, t, s: (c.start, c.end, t.start, t.end, t.parent.id, s.start, s.end))"
+            "(child.lift_over_to_first_ancestor_of_type('contig'), child.lift_over_to_first_ancestor_of_type('chromosome'),"
+            " child.lift_over_to_sequence(top_seq))")
     ensures = {
         "contig-coordinates": lambda i, r: And(r[0] == i.q0 + i.a, r[1] == i.q0 + i.b),
         "chromosome-coordinates": lambda i, r: And(r[2] == i.p0 + i.q0 + i.a, r[3] == i.p0 + i.q0 + i.b, r[4] == "chromosome"),
+        # lifting by sequence IDENTITY (lift_over_to_sequence) composes the same two placements
+        "by-sequence-identity": lambda i, r: And(r[5] == i.p0 + i.q0 + i.a, r[6] == i.p0 + i.q0 + i.b),
     }
 
     def inputs(self, S):
@@ -344,7 +347,7 @@ class LiftThroughNamedPlacements(Case):
         upper2 = S.new(PARENT, location=placement2, parent=upper1)
         level2 = S.new(PARENT, id="transcript", sequence_type="transcript", parent=upper2)
         child = S.new(SINGLE, a, b, plus, parent=level2)
-        return NS(child=child, p0=p0, q0=q0, a=a, b=b)
+        return NS(child=child, p0=p0, q0=q0, a=a, b=b, top_seq=top_seq)
 
     def samples(self, rng):
         p0 = rng.randint(0, 5)
